@@ -10,7 +10,7 @@ import os
 
 PROPERTY = 'C20'
 LEVEL = 'model_checking'
-BUDGET_S = {'quick': 900, 'thorough': 7200}
+BUDGET_S = {'quick': 3600, 'thorough': 14400}
 
 NEAREST = ['RNE', 'RNA']
 ALL = ['RNE', 'RNA', 'RTP', 'RTN', 'RTZ', 'RAZ', 'RTO', 'RTE']
